@@ -459,20 +459,56 @@ void c15(Tape& t, Ctx& ctx) {
       }
       default: {  // spline / trajectory copies are independent too
         on = "spline-copy";
-        Problem p = gen_problem(t, t.rangez(1, 5, 2));
+        // sizes on both sides of the 32-segment switch of the segment lookup, as well as the small ones
+        static const int kNs[] = {1, 2, 3, 4, 5, 31, 32, 33, 40};
+        int Ns = kNs[t.rangez(0, 8, 2)];
+        Problem p = gen_problem(t, Ns);
         std::unique_ptr<Spline> a(new Spline(p.T, p.P, p.t0, p.bc));
-        (void)a->getTrajectory().evaluate(p.t0, 1);
+        if (t.chance(3, 4)) for (int k = 0; k <= t.range(0, 3); ++k) (void)a->getTrajectory().evaluate(p.t0 + 0.125 * k, k);
         Spline b(*a), c2; c2 = *a;
+        auto tc = a->getTrajectoryCopy();
+        Spline b2(b);                     // copy of a copy
         MatrixType C0 = a->getTrajectory().getCoefficients();
         double e0 = a->getEnergy();
-        Problem q = gen_problem(t, t.rangez(1, 5, 2));
-        if (t.flag()) a->update(q.T, q.P, q.t0, q.bc); else a.reset();
-        bool ok = mat_same_bits(b.getTrajectory().getCoefficients(), C0) && mat_same_bits(c2.getTrajectory().getCoefficients(), C0) && same_val(b.getEnergy(), e0) && same_val(c2.getEnergy(), e0) &&
-                  vec_same_bits(b.getTrajectory().evaluate(p.t0 + 0.25, 1), c2.getTrajectory().evaluate(p.t0 + 0.25, 1));
+        // the source is updated (same size with other knots / another size), updated through a copy's data, or destroyed
+        int fate = t.range(0, 3);
+        Problem q = gen_problem(t, fate == 0 ? Ns : kNs[t.rangez(0, 8, 2)]);
+        if (fate <= 1) { if (t.flag()) a->update(q.T, q.P, q.t0, q.bc); else { std::vector<double> tp(q.T.size() + 1); tp[0] = q.t0; for (size_t k = 0; k < q.T.size(); ++k) tp[k + 1] = tp[k] + q.T[k]; a->update(tp, q.P, q.bc); } }
+        else if (fate == 2) { a.reset(); if (t.flag()) { std::unique_ptr<Spline> filler(new Spline(q.T, q.P, q.t0, q.bc)); (void)filler->getEnergy(); } }
+        else { Spline tmp(q.T, q.P, q.t0, q.bc); *a = tmp; }
         Spline f(p.T, p.P, p.t0, p.bc);
+        const auto& ft = f.getTrajectory();
+        bool ok = mat_same_bits(b.getTrajectory().getCoefficients(), C0) && mat_same_bits(c2.getTrajectory().getCoefficients(), C0) && mat_same_bits(b2.getTrajectory().getCoefficients(), C0) &&
+                  mat_same_bits(tc.getCoefficients(), C0) && same_val(b.getEnergy(), e0) && same_val(c2.getEnergy(), e0) && same_val(b2.getEnergy(), e0) &&
+                  b.getTrajectory().getBreakpoints() == ft.getBreakpoints() && c2.getTrajectory().getBreakpoints() == ft.getBreakpoints() && tc.getBreakpoints() == ft.getBreakpoints();
+        std::string where;
+        // evaluation on every piece (interior point and left knot) at the orders 0..3: the copies must select the pieces by their OWN knots
+        const auto& bk = ft.getBreakpoints();
+        for (int sgi = 0; sgi < Ns && ok; ++sgi) {
+          for (double tq : {bk[sgi], bk[sgi] + (bk[sgi + 1] - bk[sgi]) * (1 + (sgi * 7) % 15) / 16.0}) {
+            int k = sgi % 4;
+            auto vf = ft.evaluate(tq, k);
+            if (!(vec_same_bits(b.getTrajectory().evaluate(tq, k), vf) && vec_same_bits(c2.getTrajectory().evaluate(tq, k), vf) && vec_same_bits(tc.evaluate(tq, k), vf) && vec_same_bits(b2.getTrajectory().evaluate(tq, k), vf))) {
+              ok = false; where = " (evaluate at t=" + g17(tq) + ", order " + std::to_string(k) + ", piece " + std::to_string(sgi) + " of " + std::to_string(Ns) + ")";
+            }
+          }
+        }
         auto gA = b.getEnergyGrad(); auto gF = f.getEnergyGrad();
-        ok = ok && vec_same_bits(gA.times, gF.times) && mat_same_bits(gA.inner_points, gF.inner_points) && vec_same_bits(b.getTrajectory().evaluate(p.t0 + 0.25, 2), f.getTrajectory().evaluate(p.t0 + 0.25, 2));
-        VCHECK(ctx, ok, "spline-copy-not-independent", oname() << " dim=" << D << ": a copy of a spline changed (or differs from a fresh spline) after its source was " << (a ? "updated" : "destroyed"));
+        ok = ok && vec_same_bits(gA.times, gF.times) && mat_same_bits(gA.inner_points, gF.inner_points);
+        VCHECK(ctx, ok, "spline-copy-not-independent", oname() << " dim=" << D << " N=" << Ns << ": a copy of a spline changed (or differs from a fresh spline) after its source was "
+                                                              << (fate <= 1 ? "updated" : (fate == 2 ? "destroyed" : "assigned over")) << where);
+        // and the other way round: updating a copy leaves the (still living) source and the other copies alone
+        if (a) {
+          Spline fa(q.T, q.P, q.t0, q.bc);
+          Spline cpy(*a);
+          Problem r = gen_problem(t, kNs[t.rangez(0, 8, 2)]);
+          cpy.update(r.T, r.P, r.t0, r.bc);
+          double tq = q.t0 + 0.375 * q.T[0];
+          VCHECK(ctx, mat_same_bits(a->getTrajectory().getCoefficients(), fa.getTrajectory().getCoefficients()) && a->getTrajectory().getBreakpoints() == fa.getTrajectory().getBreakpoints() &&
+                          vec_same_bits(a->getTrajectory().evaluate(tq, 1), fa.getTrajectory().evaluate(tq, 1)) && same_val(a->getEnergy(), fa.getEnergy()),
+                 "spline-copy-not-independent", oname() << " dim=" << D << ": a spline changed after a copy of it was updated");
+        }
+        if (Ns >= 32) ctx.label("spline-copy:>=32-segments");
         nt = true;
         break;
       }
